@@ -74,8 +74,12 @@ def import_repo():
 # watchdog for calls into the implementation
 
 
-class ImplTimeout(Exception):
-    pass
+class ImplTimeout(BaseException):
+    """raised by the watchdog inside a call into the implementation.  A BaseException: the history interpreters of the
+    property modules wrap every step in `except Exception` ("an exception is this step's answer"), which used to swallow
+    the watchdog's signal, record TIMEOUT as one step's answer and go on without a limit, so the line was never asked again
+    (false alarm of C05 on a busy machine at thorough sizes).  Now it always reaches `Run.call_impl`, which asks again with
+    a long limit before calling it a time-out."""
 
 
 class RunAborted(BaseException):
